@@ -101,6 +101,7 @@ class _PredictSpec:
 class PredictNumpy(Contract):
     functional = True
     target = SP + ":predict_numpy"
+    dtype_variants = False  # private kernel: its callers hand it float64 arrays and buffers (their own integer-kind contracts, C04)
     stubs = {"greens_func_numpy": SP + ":greens_func_numpy"}
 
     def setup(self, B, cfg):
@@ -150,6 +151,7 @@ class PredictNumpy(Contract):
 class JacobianNumpy(Contract):
     functional = True
     target = SP + ":jacobian_numpy"
+    dtype_variants = False  # private kernel: its callers hand it float64 arrays and buffers (their own integer-kind contracts, C04)
     stubs = {"greens_func_numpy": SP + ":greens_func_numpy"}
 
     def setup(self, B, cfg):
